@@ -28,6 +28,11 @@ Request outcomes: ok | erra | erru | brk (the request's own ErrServiceUnavailabl
           (one request through the real rest handler / zrpc interceptor / redis hook / sqlx connection; Sites.lean)
 cfg kind=named: one breaker per name (breakers.go); every op but `t+` ends with name=<x> and its observation with
       oth=<Σ sum of the other names' windows>; `t+` prints `<name> <state> | …` for the names created so far.
+      parfirst g=<G> k=<K> r=<R>  (named sections only)      => calls=<G*K> maxdistinct=<d> minrecorded=<m>
+          (R rounds: G goroutines, released together, make the FIRST use of one fresh name — GetBreaker(name), then K
+           successful Do(name, …) each; d = most different breakers handed out for one name in a round, m = fewest calls
+           the breaker of the name had recorded at the end of a round.  `Registry.get`: whoever comes first creates the
+           breaker, everybody else finds it — d = 1 and m = G*K under every schedule.)
 cfg kind=rw size=<n> iv=<d>: a bare RollingWindow; ops t+ <ns> | add <succ|fail|drop> => n=<visited> w=<Σ>; dump.
 cfg kind=race: `races => total=<n> known-errorwindow=<k> unknown=<u> [first=<frames>]`, the race detector's verdict.
 -/
@@ -555,6 +560,22 @@ def runNamedLine (sec : Nat) (acc : Report × NState) (l : Line) : Report × NSt
   let (r0, ns) := acc
   let mut r := r0
   match l.op with
+  | ["parfirst", gs, ks, rs] =>
+    -- concurrent first use of a fresh name: one breaker per name (`Registry.get` creates once, then finds)
+    r := { r with ops := r.ops + 1 }.addCover "named-concurrent-first-use"
+    let calls := kvNat [gs] "g" 0 * kvNat [ks] "k" 0
+    let model := s!"calls={calls} maxdistinct=1 minrecorded={calls}"
+    let impl := joinSp l.obs
+    if kvNat [rs] "r" 0 = 0 ∨ calls = 0 then return (r.mismatch sec l.idx "bad-op" (joinSp l.op), ns)
+    if (kv? l.obs "maxdistinct").isNone ∨ (kv? l.obs "minrecorded").isNone ∨ kvNat l.obs "calls" 0 ≠ calls then
+      return (r.mismatch sec l.idx model impl, ns)
+    let d := kvNat l.obs "maxdistinct" 0
+    let m := kvNat l.obs "minrecorded" 0
+    if d ≠ 1 then
+      r := r.violation sec l.idx s!"concurrent first use of one name: the goroutines were handed {d} different breakers for the same name (calls under one name must act on one breaker): [{impl}]"
+    else if m ≠ calls then
+      r := r.violation sec l.idx s!"concurrent first use of one name: the breaker of the name recorded {m} of the {calls} calls made under that name: [{impl}]"
+    return (r, ns)
   | ["t+", dts] =>
     match dts.toNat? with
     | none => return ({ r with ops := r.ops + 1 }.mismatch sec l.idx "bad-op" (joinSp l.op), ns)
